@@ -12,12 +12,12 @@ import (
 // conventional name as tie-breaker, and classifies instructions of package wal
 // into the events of DESIGN.md Appendix A.
 type walVocab struct {
-	p                                                                  *Prog
-	walT, stateT                                                       *types.Named
-	closed, stateCell, writeMu, trigger, await, metaDB, sf             *types.Var
-	refCount, finalizer, tail, segments, nextSegmentID, nextBaseIndex  *types.Var
-	missing                                                            []string
-	txnSig                                                             *types.Signature
+	p                                                                 *Prog
+	walT, stateT                                                      *types.Named
+	closed, stateCell, writeMu, trigger, await, metaDB, sf            *types.Var
+	refCount, finalizer, tail, segments, nextSegmentID, nextBaseIndex *types.Var
+	missing                                                           []string
+	txnSig                                                            *types.Signature
 }
 
 func fieldWhere(n *types.Named, prefer string, pred func(v *types.Var) bool) *types.Var {
